@@ -1,70 +1,252 @@
-(* C18 — Jura: one-shot market orders, resting limits, triggers spawn a next-tick child.
-   Statements only; for every Num F. *)
-From Coq Require Import ZArith NArith List Bool String Floats.
-From Alator Require Import Model.Num Model.Quirks Model.Exchange Model.Uist Model.Jura Proofs.JuraProofs.
+(* C18 — Jura: one-shot market orders, resting limits, triggers spawn a next-tick child. Statements only; for every Num F (IEEE instance included). *)
+From Coq Require Import ZArith NArith List Bool String Permutation Sorted Floats.
+From Alator Require Import Model.Num Model.Quirks Model.Exchange Model.Uist Model.Jura Model.Server
+  Proofs.ListAux Proofs.ExchangeProofs Proofs.UistProofs Proofs.JuraProofs Proofs.ExchangeCorollaries
+  Proofs.ServerProofs.
+Import ListNotations.
 Local Open Scope num_scope.
+Local Existing Instance FNj.
 
-Theorem c18_ioc_first_attempt : forall (F : Type) (NF : Num F) (id : N) (o : jorder F) (q : quote F) (price sz : F),
-  jo_type o = JLimit Ioc -> jo_limit_px o = Some price -> jo_sz o = Some sz ->
-  jura_decide clean (mkEntry id o false) q =
-  if jo_is_buy o
-  then (if q_ask q <=? price * (fone + ftenth)
-        then AFill (mkFill (N_to_string (jo_asset o)) id (q_ask q) true sz (q_date q)) else AMark)
-  else (if price * (fone - ftenth) <=? q_bid q
-        then AFill (mkFill (N_to_string (jo_asset o)) id (q_bid q) false sz (q_date q)) else AMark).
+(* IOC ('market') order, first quoted tick: buy fills at the ask iff ask <= limit x (1 + 0.1), sell at the bid iff bid >= limit x (1 - 0.1); otherwise it is marked as attempted. *)
+Theorem c18_ioc_first_attempt :
+  forall (F : Type) (NF : Num F) (id : N) (o : jorder F) (q : quote F) (price sz : F),
+         jo_type o = JLimit Ioc ->
+         jo_limit_px o = Some price ->
+         jo_sz o = Some sz ->
+         jura_decide clean {| e_id := id; e_ord := o; e_flag := false |} q =
+         (if jo_is_buy o
+          then
+           if q_ask q <=? price * (fone + ftenth)
+           then
+            AFill
+              {|
+                f_coin := N_to_string (jo_asset o);
+                f_oid := id;
+                f_px := q_ask q;
+                f_side_ask := true;
+                f_sz := sz;
+                f_time := q_date q
+              |}
+           else AMark
+          else
+           if price * (fone - ftenth) <=? q_bid q
+           then
+            AFill
+              {|
+                f_coin := N_to_string (jo_asset o);
+                f_oid := id;
+                f_px := q_bid q;
+                f_side_ask := false;
+                f_sz := sz;
+                f_time := q_date q
+              |}
+           else AMark).
 Proof. exact @ioc_first_attempt. Qed.
 
-Theorem c18_ioc_after_attempt : forall (F : Type) (NF : Num F) (id : N) (o : jorder F) (q : quote F),
-  jo_type o = JLimit Ioc -> jura_decide clean (mkEntry id o true) q = AExpire.
+(* Once attempted, an IOC order is dropped at the next quoted tick: it can never fill later. *)
+Theorem c18_ioc_after_attempt :
+  forall (F : Type) (NF : Num F) (id : N) (o : jorder F) (q : quote F),
+         jo_type o = JLimit Ioc ->
+         jura_decide clean {| e_id := id; e_ord := o; e_flag := true |} q = AExpire.
 Proof. exact @ioc_after_attempt. Qed.
 
-Theorem c18_gtc : forall (F : Type) (NF : Num F) (id : N) (o : jorder F) (fl : bool) (q : quote F) (price sz : F),
-  jo_type o = JLimit Gtc -> jo_limit_px o = Some price -> jo_sz o = Some sz ->
-  jura_decide clean (mkEntry id o fl) q =
-  if jo_is_buy o
-  then (if q_ask q <=? price
-        then AFill (mkFill (N_to_string (jo_asset o)) id (q_ask q) true sz (q_date q)) else ARest)
-  else (if price <=? q_bid q
-        then AFill (mkFill (N_to_string (jo_asset o)) id (q_bid q) false sz (q_date q)) else ARest).
+(* A good-till-cancel limit rests until ask <= limit (buy) / bid >= limit (sell), then fills. *)
+Theorem c18_gtc :
+  forall (F : Type) (NF : Num F) (id : N) (o : jorder F) (fl : bool) 
+           (q : quote F) (price sz : F),
+         jo_type o = JLimit Gtc ->
+         jo_limit_px o = Some price ->
+         jo_sz o = Some sz ->
+         jura_decide clean {| e_id := id; e_ord := o; e_flag := fl |} q =
+         (if jo_is_buy o
+          then
+           if q_ask q <=? price
+           then
+            AFill
+              {|
+                f_coin := N_to_string (jo_asset o);
+                f_oid := id;
+                f_px := q_ask q;
+                f_side_ask := true;
+                f_sz := sz;
+                f_time := q_date q
+              |}
+           else ARest
+          else
+           if price <=? q_bid q
+           then
+            AFill
+              {|
+                f_coin := N_to_string (jo_asset o);
+                f_oid := id;
+                f_px := q_bid q;
+                f_side_ask := false;
+                f_sz := sz;
+                f_time := q_date q
+              |}
+           else ARest).
 Proof. exact @gtc_decision. Qed.
 
-Theorem c18_trigger_never_fills : forall (F : Type) (NF : Num F) (e : entry (jorder F)) (q : quote F) trig m k,
-  jo_type (e_ord e) = JTrigger trig m k -> forall qk t, jura_decide qk e q <> AFill t.
+(* A trigger order never fills itself (any quirk valuation). *)
+Theorem c18_trigger_never_fills :
+  forall (F : Type) (NF : Num F) (e : entry (jorder F)) (q : quote F) 
+           (trig : F) (m : bool) (k : tpsl),
+         jo_type (e_ord e) = JTrigger trig m k ->
+         forall (qk : quirks) (t : fill F), jura_decide qk e q <> AFill t.
 Proof. exact @trigger_never_fills. Qed.
 
-Theorem c18_trigger_decision : forall (F : Type) (NF : Num F) (e : entry (jorder F)) (q : quote F) trig m k,
-  jo_type (e_ord e) = JTrigger trig m k ->
-  (ShouldFire (jo_is_buy (e_ord e)) k trig q /\
-   jura_decide clean e q = ATrigger (trigger_child (e_ord e) (if m then Ioc else Gtc)))
-  \/ (~ ShouldFire (jo_is_buy (e_ord e)) k trig q /\ jura_decide clean e q = ARest).
+(* Firing conditions (ShouldFire, written independently): SL buy ask >= trigger, SL sell bid <= trigger, TP buy ask <= trigger, TP sell bid >= trigger; firing yields a child that is IOC if is_market else GTC. *)
+Theorem c18_trigger_decision :
+  forall (F : Type) (NF : Num F) (e : entry (jorder F)) (q : quote F) 
+           (trig : F) (m : bool) (k : tpsl),
+         jo_type (e_ord e) = JTrigger trig m k ->
+         ShouldFire (jo_is_buy (e_ord e)) k trig q /\
+         jura_decide clean e q = ATrigger (trigger_child (e_ord e) (if m then Ioc else Gtc)) \/
+         ~ ShouldFire (jo_is_buy (e_ord e)) k trig q /\ jura_decide clean e q = ARest.
 Proof. exact @trigger_decision. Qed.
 
-Theorem c18_trigger_child_fields : forall (F : Type) (o : jorder F) (t : tif),
-  let c := trigger_child o t in
-  jo_asset c = jo_asset o /\ jo_is_buy c = jo_is_buy o /\ jo_limit_px c = jo_limit_px o /\
-  jo_sz c = jo_sz o /\ jo_reduce_only c = jo_reduce_only o /\ jo_cloid c = jo_cloid o /\
-  jo_type c = JLimit t.
+(* The child has the parent's asset, side, limit, size, reduce_only and cloid. *)
+Theorem c18_trigger_child_fields :
+  forall (F : Type) (o : jorder F) (t : tif),
+         let c := trigger_child o t in
+         jo_asset c = jo_asset o /\
+         jo_is_buy c = jo_is_buy o /\
+         jo_limit_px c = jo_limit_px o /\
+         jo_sz c = jo_sz o /\
+         jo_reduce_only c = jo_reduce_only o /\ jo_cloid c = jo_cloid o /\ jo_type c = JLimit t.
 Proof. exact @trigger_child_fields. Qed.
 
-Theorem c18_fill_fields : forall (F : Type) (NF : Num F) (e : entry (jorder F)) (q : quote F) qk (f : fill F),
-  jura_decide qk e q = AFill f ->
-  f_oid f = e_id e /\ f_coin f = N_to_string (jo_asset (e_ord e)) /\ f_time f = q_date q /\
-  jo_sz (e_ord e) = Some (f_sz f) /\
-  (jo_is_buy (e_ord e) = true -> f_px f = q_ask q /\ f_side_ask f = true) /\
-  (jo_is_buy (e_ord e) = false -> f_px f = q_bid q /\ f_side_ask f = false).
+(* Fills carry the order's id, asset, size and the quote's price and date. *)
+Theorem c18_fill_fields :
+  forall (F : Type) (NF : Num F) (e : entry (jorder F)) (q : quote F) 
+           (qk : quirks) (f : fill F),
+         jura_decide qk e q = AFill f ->
+         f_oid f = e_id e /\
+         f_coin f = N_to_string (jo_asset (e_ord e)) /\
+         f_time f = q_date q /\
+         jo_sz (e_ord e) = Some (f_sz f) /\
+         (jo_is_buy (e_ord e) = true -> f_px f = q_ask q /\ f_side_ask f = true) /\
+         (jo_is_buy (e_ord e) = false -> f_px f = q_bid q /\ f_side_ask f = false).
 Proof. exact @fill_fields. Qed.
 
-(* the statement is refuted for the code as it was with both sell-side trigger comparisons
-   reversed: witness evaluated by the kernel on the IEEE instance *)
-Local Existing Instance FNj.
+(* Through a whole tick: an untried IOC order on a tick quoting its asset either fills and leaves the book, or stays with the attempted flag set and no fill. *)
+Theorem c18_ioc_lifecycle_first :
+  forall (F : Type) (NF : Num F) (s : jexch F) (qs : quotes (quote F)) 
+           (perm : list nat) (s' : jexch F) (fl : list (N * fill F)) 
+           (adm : list (N * jorder F)) (trig : list N) (id : N) (o : jorder F) 
+           (q : quote F) (price sz : F),
+         Inv s ->
+         jura_tick clean s qs perm = (s', OutTick fl adm trig) ->
+         In {| e_id := id; e_ord := o; e_flag := false |} (book s) ->
+         jo_type o = JLimit Ioc ->
+         jo_limit_px o = Some price ->
+         jo_sz o = Some sz ->
+         lookup qs (N_to_string (jo_asset o)) = Some q ->
+         let cond :=
+           if jo_is_buy o
+           then q_ask q <=? price * (fone + ftenth)
+           else price * (fone - ftenth) <=? q_bid q in
+         if cond
+         then
+          ~ In id (ids (book s')) /\
+          In
+            (id,
+             {|
+               f_coin := N_to_string (jo_asset o);
+               f_oid := id;
+               f_px := if jo_is_buy o then q_ask q else q_bid q;
+               f_side_ask := jo_is_buy o;
+               f_sz := sz;
+               f_time := q_date q
+             |}) fl
+         else In {| e_id := id; e_ord := o; e_flag := true |} (book s') /\ ~ In id (map fst fl).
+Proof. exact @ioc_lifecycle_first. Qed.
+
+(* Through a whole tick: a tried IOC order leaves the book without a fill on the next tick quoting its asset. *)
+Theorem c18_ioc_lifecycle_second :
+  forall (F : Type) (NF : Num F) (s : jexch F) (qs : quotes (quote F)) 
+           (perm : list nat) (s' : jexch F) (fl : list (N * fill F)) 
+           (adm : list (N * jorder F)) (trig : list N) (id : N) (o : jorder F) 
+           (q : quote F),
+         Inv s ->
+         jura_tick clean s qs perm = (s', OutTick fl adm trig) ->
+         In {| e_id := id; e_ord := o; e_flag := true |} (book s) ->
+         jo_type o = JLimit Ioc ->
+         lookup qs (N_to_string (jo_asset o)) = Some q ->
+         ~ In id (ids (book s')) /\ ~ In id (map fst fl).
+Proof. exact @ioc_lifecycle_second. Qed.
+
+(* Through a whole tick: a trigger order has no fill; when its condition holds it leaves the book and its child rests, unflagged, with a fresh id (>= the counter at tick entry, hence not fillable on this tick) announced in the tick's result; otherwise it keeps resting unchanged. *)
+Theorem c18_trigger_lifecycle :
+  forall (F : Type) (NF : Num F) (s : jexch F) (qs : quotes (quote F)) 
+           (perm : list nat) (s' : jexch F) (fl : list (N * fill F)) 
+           (adm : list (N * jorder F)) (trig : list N) (id : N) (o : jorder F) 
+           (fl0 : bool) (q : quote F) (tp : F) (m : bool) (k : tpsl),
+         Inv s ->
+         jura_tick clean s qs perm = (s', OutTick fl adm trig) ->
+         In {| e_id := id; e_ord := o; e_flag := fl0 |} (book s) ->
+         jo_type o = JTrigger tp m k ->
+         lookup qs (N_to_string (jo_asset o)) = Some q ->
+         ~ In id (map fst fl) /\
+         (ShouldFire (jo_is_buy o) k tp q /\
+          ~ In id (ids (book s')) /\
+          (exists j : N,
+             In j trig /\
+             (next_id s <= j)%N /\
+             In
+               {|
+                 e_id := j; e_ord := trigger_child o (if m then Ioc else Gtc); e_flag := false
+               |} (book s')) \/
+          ~ ShouldFire (jo_is_buy o) k tp q /\
+          In {| e_id := id; e_ord := o; e_flag := fl0 |} (book s')).
+Proof. exact @trigger_lifecycle. Qed.
+
+(* Recorded, outside the property: an Alo order makes a quoted tick panic (unimplemented!). *)
+Theorem c18_alo_panics :
+  forall (F : Type) (NF : Num F) (e : entry (jorder F)) (q : quote F) (qk : quirks),
+         jo_type (e_ord e) = JLimit Alo -> jura_decide qk e q = APanic.
+Proof. exact @alo_panics. Qed.
+
+(* The statement is refuted for the code as it was, with both sell-side trigger comparisons reversed: witness evaluated by the kernel on the IEEE instance (stop-loss sell at 90 ignores a bid of 80, fires at 120). *)
 Theorem c18_refuted_q_jura_sell_triggers_inverted :
-  jura_decide inverted (mkEntry 0 sl_sell_90 false) (q_at 80%float) = ARest /\
-  jura_decide inverted (mkEntry 0 sl_sell_90 false) (q_at 120%float)
-    = ATrigger (trigger_child sl_sell_90 Ioc) /\
-  jura_decide clean (mkEntry 0 sl_sell_90 false) (q_at 80%float)
-    = ATrigger (trigger_child sl_sell_90 Ioc) /\
-  jura_decide clean (mkEntry 0 sl_sell_90 false) (q_at 120%float) = ARest.
-Proof. exact c18_refuted_with_inverted_triggers. Qed.
+  jura_decide inverted {| e_id := 0; e_ord := sl_sell_90; e_flag := false |} (q_at 80) =
+         ARest /\
+         jura_decide inverted {| e_id := 0; e_ord := sl_sell_90; e_flag := false |} (q_at 120) =
+         ATrigger (trigger_child sl_sell_90 Ioc) /\
+         jura_decide clean {| e_id := 0; e_ord := sl_sell_90; e_flag := false |} (q_at 80) =
+         ATrigger (trigger_child sl_sell_90 Ioc) /\
+         jura_decide clean {| e_id := 0; e_ord := sl_sell_90; e_flag := false |} (q_at 120) =
+         ARest.
+Proof. exact @c18_refuted_with_inverted_triggers. Qed.
+
+(* What the defect does, in general. *)
+Theorem c18_inverted_triggers_characterised :
+  forall (F : Type) (NF : Num F) (e : entry (jorder F)) (q : quote F) 
+           (trig : F) (m : bool) (k : tpsl),
+         jo_type (e_ord e) = JTrigger trig m k ->
+         jo_is_buy (e_ord e) = false ->
+         jura_decide
+           {|
+             q_init_no_bump := false;
+             q_jura_pos_stuck := false;
+             q_jura_sell_triggers_inverted := true;
+             q_send_dropped_future := false;
+             q_limit_panics := false;
+             q_liq_ceil_precedence := false;
+             q_diff_break := false;
+             q_diff_direction_flip := false;
+             q_strategy_ncf_self_add := false;
+             q_maxdd_last_positions := false;
+             q_liq_fail_debit := false;
+             q_jura_http_drops_triggered := false
+           |} e q =
+         (if match k with
+             | Tp => q_bid q <=? trig
+             | Sl => trig <=? q_bid q
+             end
+          then ATrigger (trigger_child (e_ord e) (if m then Ioc else Gtc))
+          else ARest).
+Proof. exact @inverted_triggers_differ. Qed.
 
 Print Assumptions c18_ioc_first_attempt.
 Print Assumptions c18_ioc_after_attempt.
@@ -73,4 +255,9 @@ Print Assumptions c18_trigger_never_fills.
 Print Assumptions c18_trigger_decision.
 Print Assumptions c18_trigger_child_fields.
 Print Assumptions c18_fill_fields.
+Print Assumptions c18_ioc_lifecycle_first.
+Print Assumptions c18_ioc_lifecycle_second.
+Print Assumptions c18_trigger_lifecycle.
+Print Assumptions c18_alo_panics.
 Print Assumptions c18_refuted_q_jura_sell_triggers_inverted.
+Print Assumptions c18_inverted_triggers_characterised.
